@@ -425,22 +425,33 @@ func (sortedSet *SortedSet) ZMin() *Item {
 	return &sortedSet.skiplist.header.level[0].forward.Item
 }
 
-// ZScan returns members which score or member within the given border
+// ZScan visits up to count members (count <= 0: all the remaining ones) in (score, member) order
+// starting at position cursor and returns the position to continue from.
 func (sortedSet *SortedSet) ZScan(cursor int64, match string, count int64) (int64, []*Item) {
 	var items = make([]*Item, 0)
-	if count == 0 {
-		count = sortedSet.ZCard()
-	}
 	if match == "" {
 		match = "*"
 	}
-	sortedSet.forEachByRank(cursor, cursor+count, false, func(element *Item) bool {
-		if matched, _ := filepath.Match(match, element.Member); matched {
-			items = append(items, element)
+	if cursor < 0 {
+		cursor = 0
+	}
+	var i int64 = 0
+	var visited int64 = 0
+	for n := sortedSet.skiplist.header.level[0].forward; n != nil; n = n.level[0].forward {
+		if i < cursor {
+			i++
+			continue
 		}
-		return true
-	})
-	return cursor + int64(len(items)), items
+		if count > 0 && visited >= count {
+			break
+		}
+		if matched, _ := filepath.Match(match, n.Member); matched {
+			items = append(items, &n.Item)
+		}
+		i++
+		visited++
+	}
+	return i, items
 }
 
 func (sortedSet *SortedSet) GetValue() []byte {
